@@ -11,6 +11,18 @@ GROUPS = {
         U("digraph_sched", "RemoveRootNode"),
         U("digraph_sched", "RootNodes"),
     ],
+    "dagproto": [
+        U("dagproto", "RunSubgraph", "sync"), U("dagproto", "RunSubgraph", "async"),
+        U("dagproto", "DagCall", "sync"), U("dagproto", "DagCall", "async"),
+        U("dagproto", "ExecutionCall", "sync"), U("dagproto", "ExecutionCall", "async"),
+        U("dagproto", "PreCall"),
+    ],
+    "values": [
+        U("values", "XnActiveInCall"), U("values", "UxnResult"), U("values", "UxnGetitem"), U("values", "ExtendResultsWithArgs"),
+        U("values", "ToThreadInExecutor"), U("values", "SyncExecute"), U("values", "StrictDictSetitem"), U("values", "BiDictSetitem"),
+        U("values", "CopyNonSetupXns"), U("values", "GetReturnValues"),
+    ],
+    "threads": [U("threads", "InDescriptionContext"), U("threads", "ThreadsafeMakeDag")],
 }
 
 BUDGETS = dict(DEFAULT_BUDGETS)
